@@ -61,6 +61,18 @@ func (st StructField) JSONName() string {
 	return st.Field.Name()
 }
 
+// JSONOmitEmpty returns `true` if the json tag has the option
+// "omitempty" : the field may then be missing from the JSON output
+func (st StructField) JSONOmitEmpty() bool {
+	_, options, _ := strings.Cut(st.Tag.Get("json"), ",")
+	for _, option := range strings.Split(options, ",") {
+		if option == "omitempty" {
+			return true
+		}
+	}
+	return false
+}
+
 // Exported returns `true` is the field is exported and should be
 // included in the generated code.
 // Ignored field are either :
